@@ -29,7 +29,9 @@ def enum(engine, **kw):
 
 
 PROPS = {
-    "C13": enum("kern_enum", memory=True, assumptions=["contents are sampled (seeded random, all-ones, single-bit); content dependence of the GF kernels is table lookup, checked entry by entry by C14", "Release configuration (OF_DEBUG off), little-endian x86-64, ASSEMBLY_SSE_OPT off: the configuration the tree builds"]),
+    "C13": dict(engine="kern_enum", nosan=False, memory=True, more_engines=dict(thorough=["kern_enum_dbg"]),
+                phases=dict(quick=[dict(mode="enum", timeout=900)],
+                            thorough=[dict(mode="enum", timeout=3000), dict(mode="enum", engine="kern_enum_dbg", informational=True, timeout=3000)]), assumptions=["contents are sampled (seeded random, all-ones, single-bit); content dependence of the GF kernels is table lookup, checked entry by entry by C14", "Release configuration (OF_DEBUG off), little-endian x86-64, ASSEMBLY_SSE_OPT off: the configuration the tree builds"]),
     "C16": dict(engine="hist_rc", nosan=False, memory=True,
                 phases=dict(quick=[dict(mode="enum", timeout=900)], thorough=[dict(mode="enum", timeout=3400)]),
                 assumptions=["the code is read off the library's own encoder (identity payload, each repair built alone) and must satisfy the product-structure predicate; the decoder oracle (GF(2) determinability) uses those observed equations", PROTO_ASSUME]),
